@@ -5,7 +5,7 @@ set_option linter.unusedSectionVars false
 set_option linter.unusedSimpArgs false
 
 variable {K A F N C S H : Type} [DecidableEq K] [DecidableEq S] [DecidableEq N] [DecidableEq H]
-variable (fx : Facts) (exec : A → List (N × C) → C) (ruleSer : A → S) (pathSer : C → H)
+variable (fx : Facts) (mv : C → C → C) (exec : A → List (N × C) → C) (ruleSer : A → S) (pathSer : C → H)
 
 theorem map_inj {α β} {f : α → β} (hf : Function.Injective f) : ∀ {l1 l2 : List α}, l1.map f = l2.map f → l1 = l2
   | [], [], _ => rfl
@@ -44,7 +44,7 @@ theorem inv_restrict (out : Out K C S N H) (keep : K → Bool) (h : Inv exec rul
   · simp [hkk] at hk
 
 theorem buildOne_other (r : Repo K A F N C) (out : Out K C S N H) (t : Target K A F) (j : K) (h : j ≠ t.key) :
-    (buildOne fx exec ruleSer pathSer r out t).1 j = out j := by
+    (buildOne fx mv exec ruleSer pathSer r out t).1 j = out j := by
   unfold buildOne
   cases inputs r out t with
   | none => rfl
@@ -55,9 +55,9 @@ theorem buildOne_other (r : Repo K A F N C) (out : Out K C S N H) (t : Target K 
     | some p => obtain ⟨c0, st0⟩ := p; simp only; split <;> simp [h]
 
 /-- One build step keeps the history invariant (needs `pathSer` injective: moveOutput keeps the old file). -/
-theorem buildOne_inv (hP : Function.Injective pathSer) (r : Repo K A F N C) (out : Out K C S N H)
+theorem buildOne_inv (hmv : MvOK pathSer mv) (hP : Function.Injective pathSer) (r : Repo K A F N C) (out : Out K C S N H)
     (t : Target K A F) (hinv : Inv exec ruleSer pathSer out) :
-    Inv exec ruleSer pathSer (buildOne fx exec ruleSer pathSer r out t).1 := by
+    Inv exec ruleSer pathSer (buildOne fx mv exec ruleSer pathSer r out t).1 := by
   unfold buildOne
   cases hin : inputs r out t with
   | none => simpa using hinv
@@ -81,10 +81,9 @@ theorem buildOne_inv (hP : Function.Injective pathSer) (r : Repo K A F N C) (out
           simp at hj
           obtain ⟨hc, rfl⟩ := hj
           refine ⟨t.attrs, ins, rfl, ?_⟩
-          split at hc
-          · rename_i heq
-            rw [← hc]; exact hP heq.2
-          · exact hc.symm
+          rcases hmv c0 (exec t.attrs ins) with h | ⟨heq, h⟩
+          · rw [← hc, h]
+          · rw [← hc, h]; exact hP heq
         · simp [hji] at hj; exact hinv j c st hj
 
 /-- `seen` = keys of the selected targets processed so far; plz-out and the clean accumulator agree on them. -/
@@ -138,11 +137,11 @@ theorem lookup_append_new {k : K} {acc : List (K × C)} {c : C} (h : k ∉ acc.m
 
 /-- After processing a selected target whose dependencies agree with the clean accumulator, its output is
     the clean output (skip is sound: equal stamp ⇒ equal definition and inputs ⇒ equal output). -/
-theorem buildOne_self (hf : fx.cmpRule = true ∧ fx.cmpSource = true)
+theorem buildOne_self (hmv : MvOK pathSer mv) (hf : fx.cmpRule = true ∧ fx.cmpSource = true)
     (hR : Function.Injective ruleSer) (hP : Function.Injective pathSer)
     (r : Repo K A F N C) (out : Out K C S N H) (acc : List (K × C)) (seen : List K) (t : Target K A F)
     (hinv : Inv exec ruleSer pathSer out) (hag : Agree out acc seen) (hd : ∀ d ∈ t.deps, d ∈ seen) :
-    ∃ st, (buildOne fx exec ruleSer pathSer r out t).1 t.key =
+    ∃ st, (buildOne fx mv exec ruleSer pathSer r out t).1 t.key =
       some (exec t.attrs (t.srcs.map (fun f => (r.fname f, r.files f)) ++
         t.deps.filterMap (fun d => (acc.lookup d).map (fun c => (r.outName d, c)))), st) := by
   have hin : inputs r out t = some (t.srcs.map (fun f => (r.fname f, r.files f)) ++
@@ -167,20 +166,19 @@ theorem buildOne_self (hf : fx.cmpRule = true ∧ fx.cmpSource = true)
       subst ha; rw [hi] at hc
       exact ⟨st0, by show out t.key = _; rw [ho, hc]⟩
     · simp only [ite_true]
-      split
-      · rename_i heq
-        simp only [Bool.and_eq_true, decide_eq_true_eq] at heq
-        exact ⟨_, by rw [hP heq.2]⟩
-      · exact ⟨_, rfl⟩
+      rcases hmv c0 (exec t.attrs (t.srcs.map (fun f => (r.fname f, r.files f)) ++
+          t.deps.filterMap (fun d => (acc.lookup d).map (fun c => (r.outName d, c))))) with h | ⟨heq, h⟩
+      · exact ⟨_, by rw [h]⟩
+      · exact ⟨_, by rw [h, hP heq]⟩
 
-theorem buildList_spec (hf : fx.cmpRule = true ∧ fx.cmpSource = true)
+theorem buildList_spec (hmv : MvOK pathSer mv) (hf : fx.cmpRule = true ∧ fx.cmpSource = true)
     (hR : Function.Injective ruleSer) (hP : Function.Injective pathSer)
     (r : Repo K A F N C) (sel : K → Bool) :
     ∀ (ts : List (Target K A F)) (seen : List K) (out : Out K C S N H) (acc : List (K × C)),
       acc.map (·.1) = seen → Inv exec ruleSer pathSer out → Agree out acc seen → WFList sel seen ts →
-      Inv exec ruleSer pathSer (buildList fx exec ruleSer pathSer r sel ts out).1 ∧
+      Inv exec ruleSer pathSer (buildList fx mv exec ruleSer pathSer r sel ts out).1 ∧
       (cleanList exec r sel ts acc).map (·.1) = seen ++ selKeys sel ts ∧
-      Agree (buildList fx exec ruleSer pathSer r sel ts out).1 (cleanList exec r sel ts acc) (seen ++ selKeys sel ts) := by
+      Agree (buildList fx mv exec ruleSer pathSer r sel ts out).1 (cleanList exec r sel ts acc) (seen ++ selKeys sel ts) := by
   intro ts
   induction ts with
   | nil => intro seen out acc hk hinv hag _; simpa [buildList, cleanList, selKeys] using ⟨hinv, hk, hag⟩
@@ -189,16 +187,16 @@ theorem buildList_spec (hf : fx.cmpRule = true ∧ fx.cmpSource = true)
     by_cases hs : sel t.key = true
     · simp only [WFList, hs, if_true] at hwf
       obtain ⟨hd, hnew, hwf'⟩ := hwf
-      have hinv' := buildOne_inv fx exec ruleSer pathSer hP r out t hinv
-      obtain ⟨st, hself⟩ := buildOne_self fx exec ruleSer pathSer hf hR hP r out acc seen t hinv hag hd
-      have hag' : Agree (buildOne fx exec ruleSer pathSer r out t).1
+      have hinv' := buildOne_inv fx mv exec ruleSer pathSer hmv hP r out t hinv
+      obtain ⟨st, hself⟩ := buildOne_self fx mv exec ruleSer pathSer hmv hf hR hP r out acc seen t hinv hag hd
+      have hag' : Agree (buildOne fx mv exec ruleSer pathSer r out t).1
           (acc ++ [(t.key, exec t.attrs (t.srcs.map (fun f => (r.fname f, r.files f)) ++
             t.deps.filterMap (fun d => (acc.lookup d).map (fun c => (r.outName d, c)))))]) (seen ++ [t.key]) := by
         intro k hkm
         rcases List.mem_append.mp hkm with hks | hkt
         · have hne : k ≠ t.key := fun e => hnew (e ▸ hks)
           obtain ⟨c, st', ho, ha⟩ := hag k hks
-          exact ⟨c, st', by rw [buildOne_other fx exec ruleSer pathSer r out t k hne]; exact ho,
+          exact ⟨c, st', by rw [buildOne_other fx mv exec ruleSer pathSer r out t k hne]; exact ho,
             lookup_append_of_mem ha⟩
         · have hkt' : k = t.key := by simpa using hkt
           subst hkt'
@@ -216,12 +214,12 @@ end PlzVerif.Build
 namespace PlzVerif.Build
 set_option linter.unusedSectionVars false
 variable {K A F N C S H : Type} [DecidableEq K] [DecidableEq S] [DecidableEq N] [DecidableEq H]
-variable (fx : Facts) (exec : A → List (N × C) → C) (ruleSer : A → S) (pathSer : C → H)
+variable (fx : Facts) (mv : C → C → C) (exec : A → List (N × C) → C) (ruleSer : A → S) (pathSer : C → H)
 
 /-- Any build (well-formed or not) preserves the history invariant. -/
-theorem buildList_inv (hP : Function.Injective pathSer) (r : Repo K A F N C) (sel : K → Bool) :
+theorem buildList_inv (hmv : MvOK pathSer mv) (hP : Function.Injective pathSer) (r : Repo K A F N C) (sel : K → Bool) :
     ∀ (ts : List (Target K A F)) (out : Out K C S N H), Inv exec ruleSer pathSer out →
-      Inv exec ruleSer pathSer (buildList fx exec ruleSer pathSer r sel ts out).1 := by
+      Inv exec ruleSer pathSer (buildList fx mv exec ruleSer pathSer r sel ts out).1 := by
   intro ts
   induction ts with
   | nil => intro out h; exact h
@@ -229,7 +227,7 @@ theorem buildList_inv (hP : Function.Injective pathSer) (r : Repo K A F N C) (se
     intro out h
     by_cases hs : sel t.key = true
     · simp only [buildList, hs, if_true]
-      exact ih _ (buildOne_inv fx exec ruleSer pathSer hP r out t h)
+      exact ih _ (buildOne_inv fx mv exec ruleSer pathSer hmv hP r out t h)
     · simp only [Bool.not_eq_true] at hs
       simp only [buildList, hs]
       exact ih out h
@@ -243,19 +241,19 @@ inductive HOp (K A F N C : Type) where
 
 def runHist : List (HOp K A F N C) → Out K C S N H → Out K C S N H
   | [], out => out
-  | .build r sel :: ops, out => runHist ops (build fx exec ruleSer pathSer r sel out).1
+  | .build r sel :: ops, out => runHist ops (build fx mv exec ruleSer pathSer r sel out).1
   | .remove keep :: ops, out => runHist ops (fun k => if keep k then out k else none)
 
-theorem runHist_inv (hP : Function.Injective pathSer) :
+theorem runHist_inv (hmv : MvOK pathSer mv) (hP : Function.Injective pathSer) :
     ∀ (ops : List (HOp K A F N C)) (out : Out K C S N H), Inv exec ruleSer pathSer out →
-      Inv exec ruleSer pathSer (runHist fx exec ruleSer pathSer ops out) := by
+      Inv exec ruleSer pathSer (runHist fx mv exec ruleSer pathSer ops out) := by
   intro ops
   induction ops with
   | nil => intro out h; exact h
   | cons op ops ih =>
     intro out h
     cases op with
-    | build r sel => exact ih _ (buildList_inv fx exec ruleSer pathSer hP r sel r.targets out h)
+    | build r sel => exact ih _ (buildList_inv fx mv exec ruleSer pathSer hmv hP r sel r.targets out h)
     | remove keep => exact ih _ (inv_restrict exec ruleSer pathSer out keep h)
 
 end PlzVerif.Build
